@@ -242,7 +242,7 @@ EXTRA9 = {
  "C01": " Round 9: the index parser tells deleted from live by the record's length, as the writers encode it (R10); an update lands above the revision it names - the allocator's drift-back error is not dropped on the way to a commit (R11 <- C02-R7).",
  "C02": " Round 9: a version record is committed with an allocated revision only where that allocation's error was found nil (R7).",
  "C03": " Round 9: Count agrees with Range - the worker counts exactly where it appends (R10); no record of a key's history expires on its own except the classified Event create (R11 <- C17-R5).",
- "C05": " Round 9: no dead error guard - the test that stops a stream after a failed send can fire (R15); the event cache is addressed at logical positions (R16).",
+ "C05": " Round 9: no dead error guard - the test that stops a stream after a failed send can fire (R15); the event cache is addressed at logical positions (R16), and no position is computed from a revision (R17).",
  "C06": " Round 9: replay finds the cached events at their logical positions (C05-R16 into R7).",
  "C07": " Round 9: every compaction prefix is made a directory under exactly the suffix test (R9); 'the compare failed' means a failed compare on every engine (C09-R4, C11-R1 into R6).",
  "C08": " Round 9: a compaction request is answered after its record was written - no go statement between a request entry point and Backend.Compact (R8); the answer names the revision the record was raised to (R9).",
